@@ -101,16 +101,26 @@ def run(tier):
                        'MINUS constant folding and ((x)) are normalised on both sides (semantics-preserving)',
                        'expressions longer than the bound are outside the SYMTOK claim; the LRZ3 query covers every state for binary/unary operator reductions without competing reductions']
     totals = {}
+    core_K = (7,) if tier == 'quick' else (7, 8)
+    run.bounds['core_alphabet'] = c03lib.CORE_ALPHA
+    run.bounds['core_alphabet_expression_tokens'] = max(core_K)
+    plan = []
     for d in SW.DIALECTS:
         for ctx in c03lib.CONTEXTS:
             for K in (main_K if ctx == 'select-list' else ctx_K):
-                tot, findings, samples = c03lib.sweep(d, ctx, K)
+                plan.append((d, ctx, K, None))
+        for K in core_K:
+            plan.append((d, 'select-list', K, c03lib.CORE_ALPHA))
+    for d, ctx, K, alpha in plan:
+        if True:
+            if True:
+                tot, findings, samples = c03lib.sweep(d, ctx, K, alpha=alpha)
                 if not tot.get('paths'):
                     continue
                 run.add_stats({'paths': tot['paths'], 'solver_calls': tot.get('solver_calls', 0), 'solver_s': tot.get('solver_s', 0)})
                 for k in ('match', 'skip-chained-comparison', 'outside-reference-grammar', 'other-structure', 'accept', 'reject', 'covered'):
                     totals[k] = totals.get(k, 0) + tot.get(k, 0)
-                name = 'symtok:%s:%s:K=%d' % (d, ctx, K)
+                name = 'symtok:%s:%s:K=%d%s' % (d, ctx, K, ':core-alphabet' if alpha else '')
                 bad = [f for f in findings if f['kind'] == 'grouping']
                 if not bad:
                     run.ob(name, 'discharged', 'paths=%d accepted=%d compared=%d' % (tot['paths'], tot.get('accept', 0), tot.get('match', 0)))
